@@ -49,6 +49,15 @@ def _case(draw):
         for r in table["records"][progs.hdr_pos(table) + 1:]:
             if r and len(r) == len(table["cols"]) and draw(st.integers(0, 3)) == 0:
                 r.append(draw(st.sampled_from(progs.WORDS + progs.INTS)))
+    if draw(st.integers(0, 9)) == 7:
+        # and()/or() over three or four arguments, each decisive on its own lines (every argument votes)
+        nrec = len(table["records"])
+        args = [["f", "in", [], [["h", "id"], ["t", "|".join(f"r{i}" for i in draw(st.lists(st.integers(0, nrec), min_size=1, max_size=nrec + 1, unique=True)))]]]
+                for _ in range(draw(st.integers(3, 4)))]
+        w = ["f", draw(st.sampled_from(["and", "and", "or"])), [], args]
+        if draw(st.integers(0, 3)) == 0:
+            w = ["f", "not", [], [w]]
+        prog["comps"].insert(draw(st.integers(0, len(prog["comps"]))), w)
     via = draw(st.sampled_from(["collect", "collect", "next"]))
     return {"table": table, "scan": scan, "prog": prog, "via": via}
 
